@@ -724,13 +724,13 @@ Qed.
 Lemma mof_set_conf s a t : with_conf (mof s a) t = mof (set_conf s t) a.
 Proof. reflexivity. Qed.
 
-Lemma step_ok s a o : SI s ->
+Lemma step_ok0 s a o : SI s ->
   let '(s1, out) := step s o in
-  let '(m1, v) := mon (mof s a) o out in Good s1 m1 v.
+  let '(m1, v) := mon0 (mof s a) o out in Good s1 m1 v.
 Proof.
   intros HSI. pose proof HSI as [Hs [Hc Ht]].
   assert (HSI0 : SI (set_conf s (tmo s))) by (apply si_set_conf; assumption).
-  unfold mon. cbn [m_tmo m_conf mof]. rewrite mof_set_conf.
+  unfold mon0. cbn [m_tmo m_conf mof]. rewrite mof_set_conf.
   destruct o as [t|t c|t|g|g k|md k n| | |]; cbn [step].
   - destruct (conf s || bad_tmo t) eqn:E.
     + cbn. split; [reflexivity|]. split; [exact HSI0|exists a; reflexivity].
@@ -777,54 +777,17 @@ Proof.
     split; [reflexivity|]. split; [exact HSI0|exists a; reflexivity].
 Qed.
 
-Lemma si_init : SI init.
-Proof.
-  split; [|split].
-  - split; cbn; intros; try discriminate; try contradiction.
-  - reflexivity.
-  - reflexivity.
-Qed.
-
-Lemma mof_init : minit = mof init false.
-Proof. reflexivity. Qed.
-
-Lemma run_strict_gen ops : forall s a, SI s ->
-  strictly_accepted (judge (mof s a) sinit (snd (run s ops))) = true /\ SI (fst (run s ops)).
-Proof.
-  induction ops as [|o r IH]; intros s a HSI.
-  - cbn. split; [reflexivity|exact HSI].
-  - cbn [run]. pose proof (step_ok s a o HSI) as Hst.
-    destruct (step s o) as [s1 out].
-    destruct (run s1 r) as [s2 tr] eqn:Er. cbn [snd fst judge].
-    destruct (mon (mof s a) o out) as [m1 v]. destruct Hst as [-> [HSI1 [a1 ->]]].
-    specialize (IH s1 a1 HSI1). rewrite Er in IH. cbn [snd fst] in IH.
-    cbn [strictly_accepted forallb fst]. exact IH.
-Qed.
-
-Theorem run_strict ops : strictly_accepted (judge minit sinit (snd (run init ops))) = true.
-Proof. rewrite mof_init. apply run_strict_gen. exact si_init. Qed.
-
-Lemma strict_accepted j : strictly_accepted j = true -> accepted j = true.
-Proof.
-  induction j as [|[v e] r IH]; [reflexivity|]. cbn. destruct v; [|discriminate]. intros H. cbn. exact (IH H).
-Qed.
-
-Theorem run_accepted ops : accepted (judge minit sinit (snd (run init ops))) = true.
-Proof. apply strict_accepted, run_strict. Qed.
-
-Theorem run_si ops : SI (fst (run init ops)).
-Proof. apply (run_strict_gen ops init false si_init). Qed.
-
 (* ------------------------------------------------------------------ explicit corollaries *)
 
 Lemma step_si s o : SI s -> SI (fst (step s o)).
 Proof.
-  intros HSI. pose proof (step_ok s false o HSI) as H.
-  destruct (step s o) as [s1 out]. destruct (mon (mof s false) o out) as [m1 v].
+  intros HSI. pose proof (step_ok0 s false o HSI) as H.
+  destruct (step s o) as [s1 out]. destruct (mon0 (mof s false) o out) as [m1 v].
   destruct H as [_ [H _]]. exact H.
 Qed.
 
-Definition is_panic (o : obs) : bool := match o with Panic _ => true | _ => false end.
+(* a panic, or a call / stream that got stuck *)
+Definition is_panic (o : obs) : bool := match o with Panic _ | Stuck => true | _ => false end.
 Definition has_panic (l : list obs) : bool := existsb is_panic l.
 
 Lemma has_panic_app a b : has_panic (a ++ b) = has_panic a || has_panic b.
@@ -908,6 +871,60 @@ Proof.
   - reflexivity.
   - reflexivity.
 Qed.
+
+Lemma stuck_panic l : existsb is_stuck l = true -> has_panic l = true.
+Proof.
+  unfold has_panic. induction l as [|x r IH]; [discriminate|]. cbn. intros H.
+  apply orb_true_iff in H. apply orb_true_iff. destruct H as [H|H]; [left; destruct x; try discriminate; reflexivity|right; auto].
+Qed.
+
+Lemma step_ok s a o : SI s ->
+  let '(s1, out) := step s o in
+  let '(m1, v) := mon (mof s a) o out in Good s1 m1 v.
+Proof.
+  intros HSI. pose proof (step_ok0 s a o HSI) as H0. pose proof (step_no_panic s o HSI) as Hp.
+  unfold mon. destruct (step s o) as [s1 out]. cbn [snd] in Hp.
+  destruct (existsb is_stuck out) eqn:E; [|exact H0].
+  apply stuck_panic in E. congruence.
+Qed.
+
+Lemma si_init : SI init.
+Proof.
+  split; [|split].
+  - split; cbn; intros; try discriminate; try contradiction.
+  - reflexivity.
+  - reflexivity.
+Qed.
+
+Lemma mof_init : minit = mof init false.
+Proof. reflexivity. Qed.
+
+Lemma run_strict_gen ops : forall s a, SI s ->
+  strictly_accepted (judge (mof s a) sinit (snd (run s ops))) = true /\ SI (fst (run s ops)).
+Proof.
+  induction ops as [|o r IH]; intros s a HSI.
+  - cbn. split; [reflexivity|exact HSI].
+  - cbn [run]. pose proof (step_ok s a o HSI) as Hst.
+    destruct (step s o) as [s1 out].
+    destruct (run s1 r) as [s2 tr] eqn:Er. cbn [snd fst judge].
+    destruct (mon (mof s a) o out) as [m1 v]. destruct Hst as [-> [HSI1 [a1 ->]]].
+    specialize (IH s1 a1 HSI1). rewrite Er in IH. cbn [snd fst] in IH.
+    cbn [strictly_accepted forallb fst]. exact IH.
+Qed.
+
+Theorem run_strict ops : strictly_accepted (judge minit sinit (snd (run init ops))) = true.
+Proof. rewrite mof_init. apply run_strict_gen. exact si_init. Qed.
+
+Lemma strict_accepted j : strictly_accepted j = true -> accepted j = true.
+Proof.
+  induction j as [|[v e] r IH]; [reflexivity|]. cbn. destruct v; [|discriminate]. intros H. cbn. exact (IH H).
+Qed.
+
+Theorem run_accepted ops : accepted (judge minit sinit (snd (run init ops))) = true.
+Proof. apply strict_accepted, run_strict. Qed.
+
+Theorem run_si ops : SI (fst (run init ops)).
+Proof. apply (run_strict_gen ops init false si_init). Qed.
 
 Lemma run_no_panic_gen ops : forall s, SI s ->
   forallb (fun x => negb (has_panic (snd x))) (snd (run s ops)) = true.
